@@ -1281,6 +1281,7 @@ int yylex () {
   register char c;
 
   yytext[0] = 0;
+  wide_char_literal = 0;	/* set by the L prefix, for the literal scanned by this call only */
 
   partp = partial;
   partial[0] = 0;
@@ -2429,6 +2430,12 @@ parse_identifier:
                           yylval.ihe = ihe;
                           return L_DEFINED_NAME;
                         }
+                      if (function_flag)
+                        {
+                          /* (: unknown_name ... : an expression functional, as for a reserved word */
+                          function_flag = 0;
+                          return old_func ();
+                        }
                       yylval.string = scratch_copy (yytext);
                       return L_IDENTIFIER;
                     }
@@ -2576,6 +2583,7 @@ void start_new_file (int fd, const char* pre_text) {
   last_function_context = -1;
   function_context_overflow = 0;
   current_function_context = 0;
+  function_flag = 0;	/* "(: name" at the end of the previous file must not turn this file's first word into a functional */
   cur_lbuf = &head_lbuf;
   cur_lbuf->outptr = cur_lbuf->buf_end = outptr = cur_lbuf->buf + (DEFMAX >> 1);
 
